@@ -86,6 +86,7 @@ class Renderer:
     if k == "slice_lv":
       lo = f"{e[2]}*{e[3]}+{e[4]}" if e[3] != 1 or e[4] != 0 else e[2]
       return f"{self.ref(e[1])}[{lo}:{lo}+{e[5]}]"
+    if k == "vslice": return f"{self.ref(e[1])}[ {self.ex(e[2])} : {self.ex(e[3])} + {e[4]} ]"
     if k == "concat": return "concat( " + ", ".join(self.ex(x) for x in e[1]) + " )"
     if k in ("zext", "sext", "trunc"): return f"{k}( {self.ex(e[1])}, {e[2]} )"
     if k == "red": return f"reduce_{e[1]}( {self.ex(e[2])} )"
